@@ -123,7 +123,8 @@ def run(model: Model, rep: Report, tier: str) -> None:
     rep.floors = {"R18.1": 3, "R18.3": 1, "R18.4": 12, "R18.5": 2}
     load_reference(model, REF, "c18_ref.py")
     sa = SetAlg(rewriter(graph_rewrite, c18_rewrite))
-    run_table(model, rep, TABLE, REF, _mk, sa, construct=construct, loc=loc)
+    from .. import nxden
+    run_table(model, rep, TABLE, REF, _mk, sa, construct=construct, loc=loc, post=nxden.post)
     # the caller's event and graph are untouched
     f = model.func(f"{CG}.make_counterfactual_graph")
     eff = Effects(model)
@@ -204,25 +205,11 @@ def r18_predicates(model: Model, rep: Report) -> None:
         (rep.proven if eq else rep.refuted)("R18.4", construct(f, "same-value-table"), "" if eq else
                                             "two parents 'attain the same value' iff (same node) or (same confounders, same base and: both observed with equal values / one observed "
                                             f"with the value the other is intervened to / neither observed and neither counterfactual); differs when [{short(show_row(row), 300)}]", loc(f))
-    # parents_attain_same_values: ALL differing pairs
-    f = model.func(f"{CG}.parents_attain_same_values")
-    ev = _ev(model, prims={f"{CG}.has_same_confounders", f"{CG}.nodes_attain_same_value"})
-    g, e, a, b = typed(ev, "graph", ("cls", NXMG)), typed(ev, "event", EVT), typed(ev, "a", V), typed(ev, "b", V)
-    rets = return_paths(ev.run(f, {"graph": g, "event": e, "a": a, "b": b}))
-    problems = []
-    quant = [r.value for r in rets if r.value[0] in ("all", "any")]
-    if len(quant) != 1 or quant[0][0] != "all":
-        problems.append("EVERY pair of differing parents must attain the same value (with any(), one agreeing pair wrongly merges two different worlds' copies)")
-    else:
-        c = quant[0][1]
-        it = c[3][0][1]
-        if not (it[0] == "call" and it[1] == "zip" and all(x[0] == "call" and x[1] == "sorted" for x in it[2][:2])):
-            problems.append("differing parents are not paired up in a common (sorted by base) order")
-        call = c[2]
-        if not (call[0] == "call" and call[1] == f"{CG}.nodes_attain_same_value" and kwargs_of(call).get("event") == e and kwargs_of(call).get("graph") == g):
-            problems.append("pairs are not tested with nodes_attain_same_value on the current graph and event")
-    if not any(r.value == const(False) and any(c[0] == "ne" and c[1][0] == "len" for c in r.conds) for r in rets):
-        problems.append("different numbers of differing parents must fail")
-    (rep.refuted if problems else rep.proven)("R18.4", construct(f, "all-parent-pairs"), "; ".join(problems), loc(f))
+    # parents_attain_same_values: ALL differing pairs (reference comparison)
+    run_table(model, rep, [
+        ("R18.4", f"{CG}.parents_attain_same_values", "parents_match", {"graph": ("cls", NXMG), "event": EVT, "a": V, "b": V},
+         {f"{CG}.has_same_confounders", f"{CG}.nodes_attain_same_value"}, "all-parent-pairs",
+         "same confounders, equally many differing parents, and EVERY pair of them (in base-name order) attains the same value"),
+    ], REF, _mk, SetAlg(rewriter(graph_rewrite, c18_rewrite)), construct=construct, loc=loc)
 
 
